@@ -6,6 +6,10 @@ DEVIATIONS = [  # (cfg suffix, invariant that must be reported violated)
     ("reserialised_header", "AcceptIff"),
     ("inflate_skipped", "PayloadIntact"),
 ]
+HIST_DEVIATIONS = [  # spec/jose/JoseHist.tla: several parties, histories of calls on one parsed object
+    ("open_consumes_object", "HistoryFree"),
+    ("shared_entry_header", "HRoundTrip"),
+]
 
 
 def run(ctx):
@@ -17,12 +21,21 @@ def run(ctx):
         "x aad {absent, present} - x serialization {compact, JSON} x payload size {0, 1, 15, 16, 17, 1000}, together with every continuation "
         "the specification's state machine allows after Serialize: open with the same key, open with another key of the same kind, and one "
         "flipped bit in each field the serialization carries (protected header: any bit, the case bit of each member name, RS<->PS), each with "
-        "the outcome the specification computes. %s JWK: every key kind x {two ordinary keys, EC keys with a leading zero octet in X, in Y} x "
+        "the outcome the specification computes. %s HISTORIES AND SEVERAL PARTIES (JoseHist.tla): a case is an object with 1..3 signers / "
+        "recipients, each with its own algorithm and key (one party: every signature algorithm and every key management x key kind x content "
+        "encryption; 2 and 3 parties: every sequence over the tier's alphabet of algorithms of different families, general JSON serialization, "
+        "with and without embedded jwk), with behaviours replayed on ONE parsed object: every sequence of %s Open calls over {every party's key, "
+        "another key of each party's kind, a key of a foreign kind}, then the object is serialized again and the copy opened with a party's key; "
+        "and for every field of every entry (signature i, protected header i, encrypted key i, the shared fields) one flipped bit followed by "
+        "all parties' keys in ascending then descending order. The specification demands: every party's key opens an untampered object to the "
+        "original payload at any point of any history; no other key ever does; a key never opens an object whose shared fields or whose own "
+        "entry were changed (a changed entry of ANOTHER party: either verdict, the payload must be the original). JWK: every key kind x {two ordinary keys, EC keys with a leading zero octet in X, in Y} x "
         "{public, private}. TLC enumerates the matrix; distinct = distinct cases; 'opens' in the notes counts the parse+verify/decrypt "
         "calls made on the real library."
         % ("Quick: the whole key-management matrix at payload size 17 and every payload size for dir, A128KW, RSA-OAEP, ECDH-ES; 3 seeded bits "
            "per field (first byte, last byte, anywhere)." if quick else
-           "Thorough: the full product; 3 seeded bits per field, and EVERY bit of every field for the objects with a 1 byte payload."))
+           "Thorough: the full product; 3 seeded bits per field, and EVERY bit of every field for the objects with a 1 byte payload.",
+           "2" if quick else "3 (one party) / 2"))
     ctx.exhaustive = True
     ctx.assumptions += [
         "the cryptography is uninterpreted in the model (perfect signatures/MACs/AEADs as constructor terms); the specification supplies the "
@@ -55,5 +68,22 @@ def run(ctx):
     ctx.tlc("jose", "Gen_Jose", "Gen_Jose.%s.cfg" % ctx.tier, cases_to=cases, count_states=False, timeout=600)
     res = ctx.replay("jose", cases, timeout=1500)
     ctx.judge("jose", cases, res)
+    # several parties and histories on one parsed object (JoseHist.tla)
+    ctx.sany("jose", "JoseHist")
+    ctx.sany("jose", "Gen_JoseHist")
+    # MC: the invariants hold on the specification for all behaviours: 1..2 parties, 2 steps (quick), and 1..3 parties, 3 steps
+    ctx.tlc("jose", "MC_JoseHist", "MC_JoseHist.cfg", coverage=not quick)
+    if not quick:
+        ctx.tlc("jose", "MC_JoseHist", "MC_JoseHist_deep.cfg")
+    for dev, inv in HIST_DEVIATIONS:
+        ctx.tlc("jose", "MC_JoseHist", "MC_JoseHist_dev_%s.cfg" % dev, expect_violation=inv, count_states=False, workers=1)
+    hcases = os.path.join(ctx.out, "hist_cases.ndjson")
+    ctx.tlc("jose", "Gen_JoseHist", "Gen_JoseHist.%s.cfg" % ctx.tier, cases_to=hcases, count_states=False, timeout=900)
+    hres = ctx.replay("hist", hcases, timeout=1500)
+    ctx.judge("hist", hcases, hres)
     ctx.notes["runs"] = sum((r.get("info") or {}).get("runs", 0) for r in res)
     ctx.notes["opens"] = sum((r.get("info") or {}).get("opens", 0) for r in res)
+    ctx.notes["hist_behaviours"] = sum((r.get("info") or {}).get("runs", 0) for r in hres)
+    ctx.notes["hist_opens"] = sum((r.get("info") or {}).get("opens", 0) for r in hres)
+    # re-serialized copies of a freshly parsed, untampered object that do not open (not judged: the property does not speak of them)
+    ctx.notes["hist_reserialization_lossy"] = sum((r.get("info") or {}).get("lossy", 0) for r in hres)
